@@ -183,7 +183,7 @@ def asymmetric_keys(t1, t2, rep, extra=None):
 def k17_match(case):
     """a settings failure (result with cache != result without) of an ignore-order run in which some
     hash pair's distance is needed in both orientations with different values"""
-    if case.get("kind") != "settings" or not case.get("ignore_order") or not case.get("cache_size"):
+    if case.get("kind") != "settings" or not case.get("ignore_order") or not case.get("cache_size") or case.get("raised"):
         return False
     t1, t2 = c05.from_repr(case["t1"]), c05.from_repr(case["t2"])
     return bool(asymmetric_keys(t1, t2, case.get("report_repetition", False), case.get("extra_knobs")))
@@ -200,14 +200,24 @@ def replay_witnesses(ctx):
     """the defect behind C17_cache_transparent_refuted, on the implementation"""
     from deepdiff import DeepDiff
     t1, t2 = K17_WITNESS
-    d1 = DeepDiff(list(_L9), 'u', get_deep_distance=True).get('deep_distance')
-    d2 = DeepDiff('u', list(_L9), get_deep_distance=True).get('deep_distance')
-    k1 = DeepDiff._get_distance_cache_key('aa', 'bb')
-    k2 = DeepDiff._get_distance_cache_key('bb', 'aa')
-    if d1 == d2 or k1 != k2:
+    try:
+        d1 = DeepDiff(list(_L9), 'u', get_deep_distance=True).get('deep_distance')
+        d2 = DeepDiff('u', list(_L9), get_deep_distance=True).get('deep_distance')
+        k1 = DeepDiff._get_distance_cache_key('aa', 'bb')
+        k2 = DeepDiff._get_distance_cache_key('bb', 'aa')
+    except Exception as e:  # noqa
+        ctx.break_("correspondence", {"name": "C17_cache_transparent_refuted", "detail": "probing the distance / cache key raised " + repr(e)})
+        return
+    plain = text_result(t1, t2, ignore_order=True)
+    cached = text_result(t1, t2, ignore_order=True, cache_size=5000)
+    if cached.startswith("EXC ") and not plain.startswith("EXC "):
+        ctx.fail({"kind": "settings", "t1": repr(t1), "t2": repr(t2), "ignore_order": True, "report_repetition": False, "cache_size": 5000,
+                  "cache_tuning_sample_size": 0, "cache_purge_level": 1, "raised": cached},
+                 "DeepDiff raises with cache_size=5000 but returns a result with cache_size=0: " + cached)
+    elif d1 == d2 or k1 != k2:
         ctx.break_("correspondence", {"name": "C17_cache_transparent_refuted", "detail": "rough distance is now symmetric or the distance cache key is now ordered: "
                                       "the refutation witness (same key, two values) no longer describes the code", "d(L,'u')": d1, "d('u',L)": d2})
-    elif DeepDiff(copy.deepcopy(t1), copy.deepcopy(t2), ignore_order=True) == DeepDiff(copy.deepcopy(t1), copy.deepcopy(t2), ignore_order=True, cache_size=5000):
+    elif plain == cached:
         ctx.break_("correspondence", {"name": "C17_cache_transparent_refuted", "detail": "the K17 witness no longer gives different results with and without cache"})
     ctx.note("refuted_witnesses_replayed", ["C17_cache_transparent_refuted (same key, two values: d(L,'u')=%r, d('u',L)=%r, one cache key)" % (d1, d2)])
 
@@ -372,7 +382,8 @@ def oracle_grid(ctx, inputs, pool, full):
         for (cs, tune, purge), same, exc, extra in out:
             ctx.seen((t1r, t2r, io, rep, cs, tune, purge, sorted(extra.items())), nontrivial=lookups > 0 or not io)
             if not same:
-                ctx.fail(dict(base_case, kind="settings", cache_size=cs, cache_tuning_sample_size=tune, cache_purge_level=purge, extra_knobs=extra),
+                ctx.fail(dict(base_case, kind="settings", cache_size=cs, cache_tuning_sample_size=tune, cache_purge_level=purge, extra_knobs=extra,
+                              **({"raised": True} if exc else {})),
                          "the result with cache_size=%r cache_tuning_sample_size=%r cache_purge_level=%r differs from the result without cache%s"
                          % (cs, tune, purge, " (raised)" if exc else ""))
         ctx.seen((t1r, t2r, io, rep, "repeat"))
@@ -390,6 +401,169 @@ def oracle_grid(ctx, inputs, pool, full):
         ctx.break_("harness", {"what": "the generator produced no cache hit / no eviction: the cache was not exercised", "hits": tot_hits, "evictions": tot_ev})
 
 
+
+# ---------------------------------------------------------------------------
+# a previously used hashes table: edit-in-place-then-rerun, and tables filled from temporaries
+# ---------------------------------------------------------------------------
+
+def mutable_positions(v, path=()):
+    """paths of lists / dicts inside v (root included)"""
+    if isinstance(v, (list, dict)):
+        yield path
+    if isinstance(v, (list, tuple)):
+        for i, x in enumerate(v):
+            yield from mutable_positions(x, path + (i,))
+    elif isinstance(v, dict):
+        for k, x in v.items():
+            yield from mutable_positions(x, path + (k,))
+
+
+def gen_inplace_edit(rng, v):
+    """an edit applied IN PLACE to a list / dict inside v: [op, path, args...] (JSON-able: values as reprs)"""
+    pos = [p for p in mutable_positions(v) if all(not isinstance(V.get_at(v, p[:i]), tuple) for i in range(len(p) + 1))]
+    if not pos:
+        return None
+    path = rng.choice(pos)
+    tgt = V.get_at(v, path)
+    new = repr(rng.choice([rng.randint(50, 99), [rng.randint(50, 99)], "zz"]))
+    if isinstance(tgt, list):
+        op = rng.choice(["append", "setitem", "delitem"]) if tgt else "append"
+        if op == "append":
+            return ["append", [repr(k) for k in path], new]
+        i = rng.randrange(len(tgt))
+        return [op, [repr(k) for k in path], i] + ([new] if op == "setitem" else [])
+    keys = list(tgt)
+    if keys and rng.random() < 0.6:
+        return ["setkey", [repr(k) for k in path], repr(rng.choice(keys)), new]
+    return ["setkey", [repr(k) for k in path], repr("zz%d" % rng.randint(0, 9)), new]
+
+
+def apply_inplace(v, ed):
+    tgt = V.get_at(v, [c05.from_repr(k) for k in ed[1]])
+    if ed[0] == "append":
+        tgt.append(c05.from_repr(ed[2]))
+    elif ed[0] == "setitem":
+        tgt[ed[2]] = c05.from_repr(ed[3])
+    elif ed[0] == "delitem":
+        del tgt[ed[2]]
+    elif ed[0] == "setkey":
+        tgt[c05.from_repr(ed[2])] = c05.from_repr(ed[3])
+
+
+def _dd_text(a, b, **kw):
+    from deepdiff import DeepDiff
+    try:
+        return repr(c05.io_obs(DeepDiff(a, b, view="tree", **kw)))     # canonical: set iteration order is not an observable
+    except Exception as e:  # noqa
+        return "EXC " + repr(e)
+
+
+def inplace_case(t1r, t2r, edits, io, rep):
+    """one table kept by the caller across runs while t2 (and t1) are edited in place between the runs.
+    Returns the list of problems."""
+    from deepdiff import DeepHash
+    kw = dict(ignore_order=io)
+    if io:
+        kw["report_repetition"] = rep
+    t1, t2 = c05.from_repr(t1r), c05.from_repr(t2r)
+    table = {}
+    probs = []
+    first = _dd_text(t1, t2, hashes=table, **kw)
+    if first != _dd_text(copy.deepcopy(t1), copy.deepcopy(t2), **kw):
+        probs.append("first run with an empty table passed in differs from the run without a table")
+    for n, (side, ed) in enumerate(edits):
+        apply_inplace(t1 if side == 1 else t2, ed)
+        want = _dd_text(copy.deepcopy(t1), copy.deepcopy(t2), **kw)
+        got = _dd_text(t1, t2, hashes=table, **kw)
+        if got != want:
+            probs.append("after in-place edit #%d (%r on t%d) the run with the previously used table gives %s, a fresh run gives %s" % (n, ed, side, got[:300], want[:300]))
+            break
+        try:
+            for x in (t1, t2):
+                if isinstance(x, (list, dict)):
+                    hk = dict(ignore_repetition=not (io and rep))     # the table holds hashes under DeepDiff's hashing options
+                    if DeepHash(x, hashes=table, **hk)[x] != DeepHash(x, **hk)[x]:
+                        probs.append("after in-place edit #%d DeepHash with the used table is stale" % n)
+        except Exception as e:  # noqa
+            probs.append("DeepHash with the used table raised " + repr(e))
+        if probs:
+            break
+    return probs
+
+
+def temporaries_case(seq, io, rep):
+    """ONE table across many runs over freshly built temporary containers (references dropped, gc run)"""
+    import gc
+    kw = dict(ignore_order=io)
+    if io:
+        kw["report_repetition"] = rep
+    shared = {}
+    for n, (t1r, t2r) in enumerate(seq):
+        a, b = c05.from_repr(t1r), c05.from_repr(t2r)
+        want = _dd_text(copy.deepcopy(a), copy.deepcopy(b), **kw)
+        got = _dd_text(a, b, hashes=shared, **kw)
+        del a, b
+        gc.collect()
+        if got != want:
+            return ["run #%d of %d sharing one hashes table (earlier inputs garbage-collected): %s instead of %s" % (n, len(seq), got[:300], want[:300])], n
+    return [], None
+
+
+def _hashes_task(args):
+    seed, n_inplace, n_temp = args
+    rng = random.Random(seed)
+    out = []
+    for _ in range(n_inplace):
+        if rng.random() < 0.4:
+            a, b = planted(rng)
+        else:
+            a, b, _k = c05.gen_pair(rng, alias=False, depth=3)
+        if V.contains_alias(a, b):
+            continue
+        t1r, t2r = repr(a), repr(b)
+        t1, t2 = c05.from_repr(t1r), c05.from_repr(t2r)
+        edits = []
+        for _e in range(rng.randint(1, 3)):
+            side = 2 if rng.random() < 0.7 else 1
+            ed = gen_inplace_edit(rng, t1 if side == 1 else t2)
+            if ed is None:
+                continue
+            apply_inplace(t1 if side == 1 else t2, ed)
+            edits.append((side, ed))
+        if not edits:
+            continue
+        io, rep = rng.choice([(True, False), (True, True), (True, False), (False, False)])
+        probs = inplace_case(t1r, t2r, edits, io, rep)
+        out.append(({"kind": "hashes_inplace", "t1": t1r, "t2": t2r, "edits": edits, "ignore_order": io, "report_repetition": rep}, probs))
+    for _ in range(n_temp):
+        shape = rng.random()
+        seq = []
+        n = rng.randint(4, 8)
+        w = rng.randint(3, 5)
+        rows = rng.randint(3, 6)
+        for k in range(n):
+            if shape < 0.6:      # same-shaped containers every round: freed addresses are re-used
+                a = [[i * 10 + j + k for j in range(w)] for i in range(rows)]
+                b = [list(reversed(r)) for r in reversed(a)]
+                b[k % rows][0] += 1000 + k
+            else:
+                a, b, _k = c05.gen_pair(rng, alias=False, depth=3)
+            seq.append((repr(a), repr(b)))
+        io, rep = rng.choice([(True, False), (True, True)])
+        probs, at = temporaries_case(seq, io, rep)
+        out.append(({"kind": "hashes_temporaries", "sequence": seq, "ignore_order": io, "report_repetition": rep, "failing_run": at}, probs))
+    return out
+
+
+def oracle_hashes(ctx, pool, n_tasks, n_inplace, n_temp):
+    seeds = [ctx.rng.randrange(1 << 30) for _ in range(n_tasks)]
+    for res in pool.map(_hashes_task, [(sd, n_inplace, n_temp) for sd in seeds], chunksize=1):
+        for case, probs in res:
+            ctx.seen((case["kind"], repr(case.get("t1") or case.get("sequence")), repr(case.get("edits"))))
+            ctx.count("hashes:" + case["kind"])
+            if probs:
+                ctx.fail(case, "passing a previously used hashes table changes the result: " + probs[0])
+
 # ---------------------------------------------------------------------------
 # correspondence: recorded call trees against the memo model
 # ---------------------------------------------------------------------------
@@ -399,7 +573,10 @@ def record_run(t1, t2, **kw):
     a, b = copy.deepcopy(t1), copy.deepcopy(t2)
     with MemoRecording() as rec:
         with EvictionCounter() as ev:
-            r = DeepDiff(a, b, ignore_order=True, view="tree", **kw)
+            try:
+                r = DeepDiff(a, b, ignore_order=True, view="tree", **kw)
+            except Exception as e:  # noqa  a raise under some cache setting is a result that depends on the cache
+                return "EXC " + repr(e), rec["roots"], ev
     return c05.io_obs(r), rec["roots"], ev
 
 
@@ -459,6 +636,8 @@ def _trace_task(args):
     kw = dict(report_repetition=rep)
     base, pure, _ = record_run(t1, t2, **kw)
     got, cached, ev = record_run(t1, t2, cache_size=cs, cache_tuning_sample_size=tune, **kw)
+    if isinstance(base, str) or isinstance(got, str):
+        return (t1r, t2r, rep, cs, tune, got == base, "raised", "", "", [], 0, ev["evictions"], 0, 0)
     fp, fc = flatten(pure), flatten(cached)
     kid, vid = {}, {}
     for n in fp + fc:
@@ -496,8 +675,12 @@ def correspondence(ctx, inputs, pool):
     for t1r, t2r, rep, cs, tune, same, consistent, expr, cexpr, log, nh, nev, ncalls, ndis in res:
         tag = {"t1": t1r, "t2": t2r, "report_repetition": rep, "cache_size": cs, "cache_tuning_sample_size": tune}
         if not same:
-            ctx.fail(dict(tag, kind="settings", ignore_order=True, cache_purge_level=1),
-                     "the result with cache_size=%r cache_tuning_sample_size=%r differs from the result without cache" % (cs, tune))
+            ctx.fail(dict(tag, kind="settings", ignore_order=True, cache_purge_level=1, **({"raised": True} if consistent == "raised" else {})),
+                     "the result with cache_size=%r cache_tuning_sample_size=%r differs from the result without cache%s" % (
+                         cs, tune, " (one of the two runs raised)" if consistent == "raised" else ""))
+        if consistent == "raised":
+            ctx.count("trace:run_raised")
+            continue
         if consistent == "no":
             ctx.break_("correspondence", dict(tag, what="two memoised calls with the same key (and, for distances, the same orientation) returned different values: hypothesis `consistent` of C17_cache_transparent_partial fails on this run"))
             continue
@@ -533,13 +716,34 @@ def make_tasks(rng, n):
     """(kind, payload) tasks mixing DeepDiff (both modes, cached), DeepHash, Delta"""
     tasks = []
     for i in range(n):
-        kind = rng.choice(["diff_io", "diff_io_cache", "diff", "hash", "delta", "diff_io_cache"])
-        if kind.startswith("diff_io"):
+        kind = rng.choice(["diff_io", "diff_io_cache", "diff", "hash", "delta", "diff_io_cache", "delta_tuple", "delta_tuple", "delta_tuple"])
+        if kind == "delta_tuple":
+            a, b = flat_tuple_job(rng, i)
+        elif kind.startswith("diff_io"):
             a, b = planted(rng) if rng.random() < 0.6 else c05.gen_pair(rng)[:2]
         else:
             a, b, _ = c05.gen_pair(rng, depth=3)
         tasks.append((kind, a, b, rng.choice([1, 2, 7, 5000]), rng.choice([0, 1, 10])))
     return tasks
+
+
+def flat_tuple_job(rng, k):
+    """values changed INSIDE tuples of scalars (tuple in dict / in list); never a tuple holding containers (that is finding F4)"""
+    rows = [tuple(rng.randint(0, 9) for _ in range(4)) for _ in range(rng.randint(3, 6))]
+    t1 = {"rows": rows, "name": "job%d" % k, "tail": (1, 2, k)}
+    t2 = copy.deepcopy(t1)
+    t2["rows"] = [r[:2] + (r[2] + 100,) + r[3:] if rng.random() < 0.8 else r for r in rows]
+    t2["tail"] = (1, 20, k)
+    if rng.random() < 0.5:
+        t2["name"] = "job%d!" % k
+    if rng.random() < 0.3:
+        return [t1, (5, 6)], [t2, (5, 7)]
+    return t1, t2
+
+
+def typed(v):
+    """canonical form with container types (a tuple that came back as a list is a different result)"""
+    return repr(V.canon(v))
 
 
 def run_task(task):
@@ -555,6 +759,8 @@ def run_task(task):
             return repr(DeepDiff(a, b).to_dict())
         if kind == "hash":
             return DeepHash(a)[a] + "|" + DeepHash(b, ignore_repetition=False)[b]
+        if kind == "delta_tuple":
+            return typed(copy.deepcopy(a) + Delta(DeepDiff(a, b)))
         if kind == "delta":
             d = Delta(DeepDiff(a, b), raise_errors=False, log_errors=False)
             return repr(V.canon(a + d)) if isinstance(a, (list, tuple, dict)) else repr(a + d)
@@ -603,6 +809,53 @@ def threaded(ctx, rounds, nthreads, ntasks):
         sys.setswitchinterval(old)
 
 
+def delta_parked(ctx):
+    """deterministic interleaving: thread A is parked in the middle of `t1 + delta` (inside the item
+    assignment of a list subclass) while an unrelated Delta is applied from start to end in this thread"""
+    from deepdiff import DeepDiff, Delta
+    reached, go_on = threading.Event(), threading.Event()
+
+    class SlowList(list):
+        def __setitem__(self, index, value):
+            reached.set()
+            go_on.wait(20)
+            super().__setitem__(index, value)
+    case = {"kind": "threads_delta_parked", "t1": "{'a': (1, 2, 3), 'b': SlowList([1, 2, 3])}", "t2": "{'a': (1, 2, 30), 'b': SlowList([1, 20, 3])}",
+            "other": "[1, 2] + Delta(DeepDiff([1, 2], [1, 3])) applied while the first is parked in b.__setitem__"}
+    try:
+        a1 = {'a': (1, 2, 3), 'b': SlowList([1, 2, 3])}
+        a2 = {'a': (1, 2, 30), 'b': SlowList([1, 20, 3])}
+        delta_a = Delta(DeepDiff(a1, a2))
+        go_on.set()
+        alone = typed(a1 + delta_a)
+        go_on.clear()
+        reached.clear()
+        out = {}
+
+        def work():
+            try:
+                out['a'] = typed(a1 + delta_a)
+            except Exception as e:  # noqa
+                out['a'] = "EXC " + repr(e)
+        th = threading.Thread(target=work)
+        th.start()
+        ok = reached.wait(20)
+        other = typed([1, 2] + Delta(DeepDiff([1, 2], [1, 3])))
+        go_on.set()
+        th.join(30)
+        ctx.seen(("threads_delta_parked",))
+        if not ok:
+            ctx.note("delta_parked", "thread A never reached the item assignment (Delta no longer assigns through __setitem__): interleaving not exercised")
+            return
+        if out.get('a') != alone or other != typed([1, 3]):
+            ctx.fail(dict(case, alone=alone, interleaved=out.get('a'), other_result=other),
+                     "a Delta application interleaved with another Delta application gave %s instead of %s" % (out.get('a'), alone))
+        ctx.note("delta_parked", "exercised")
+    except Exception as e:  # noqa
+        go_on.set()
+        ctx.fail(dict(case, raised=repr(e)), "Delta application raised in the interleaving scenario: " + repr(e))
+
+
 def run(ctx):
     rng = ctx.rng
     sys.setrecursionlimit(10000)
@@ -616,11 +869,38 @@ def run(ctx):
     with mp.get_context("fork").Pool(core.NCPU) as pool:
         correspondence(ctx, inputs[: (n_pl + 10 if ctx.thorough else n_pl + 2)] + [inputs[-1]], pool)
         oracle_grid(ctx, inputs, pool, full=ctx.thorough)
-    threaded(ctx, 6 if ctx.thorough else 2, 12, 96 if ctx.thorough else 48)
+        oracle_hashes(ctx, pool, core.NCPU, 12 if ctx.thorough else 3, 6 if ctx.thorough else 2)
+    delta_parked(ctx)
+    threaded(ctx, 8 if ctx.thorough else 3, 12, 120 if ctx.thorough else 60)
 
 
 def replay(ctx, data):
     case = data.get("case", {})
+    if case.get("kind") == "hashes_inplace":
+        probs = inplace_case(case["t1"], case["t2"], [tuple(e) for e in case["edits"]], case["ignore_order"], case["report_repetition"])
+        ctx.evaluations += 1
+        print("replay: hashes_inplace ->", probs or "results agree")
+        if probs:
+            ctx.fail(case, "passing a previously used hashes table changes the result: " + probs[0])
+        return
+    if case.get("kind") == "hashes_temporaries":
+        for _ in range(5):      # id recycling is up to the allocator: a few attempts
+            probs, at = temporaries_case([tuple(x) for x in case["sequence"]], case["ignore_order"], case["report_repetition"])
+            ctx.evaluations += 1
+            if probs:
+                break
+        print("replay: hashes_temporaries ->", probs or "results agree")
+        if probs:
+            ctx.fail(case, "passing a previously used hashes table changes the result: " + probs[0])
+        return
+    if case.get("kind") == "threads_delta_parked":
+        delta_parked(ctx)
+        print("replay: threads_delta_parked ->", "failed" if ctx.failures else "results agree")
+        return
+    if case.get("kind") == "threads":
+        threaded(ctx, 6, 12, 96)
+        print("replay: threaded stress re-run ->", "failed" if ctx.failures else "results agree")
+        return
     if "t1" not in case or case.get("kind") not in ("settings", "repeat", "hashes"):
         return run(ctx)
     t1r, t2r = case["t1"], case["t2"]
